@@ -266,6 +266,30 @@ fn main() {
     ()
 }
 "#, "6\n15\n5\n8\n"),
+    // methods of a generic impl with type parameters of their own, each called at two type arguments per receiver instance
+    ("method-level-generics", r#"struct Cell[T] { v: T }
+impl[T] Cell[T] {
+    fn with[U](self: Cell[T], extra: U) -> (T, U) { (self.v, extra) }
+    fn pick[U](self: Cell[T], a: U, b: U, first: bool) -> U { if first { a } else { b } }
+}
+fn main() {
+    let c: Cell[int32] = Cell { v: 7 };
+    let a: (int32, string) = c.with("s");
+    let b: (int32, bool) = c.with(true);
+    let d: Cell[string] = Cell { v: "w" };
+    let e: (string, string) = d.with("x");
+    let f: (string, int32) = Cell::with(d, 5);
+    let _ = string_println(int32_to_string(a.0) + a.1);
+    let _ = string_println(int32_to_string(b.0) + bool_to_string(b.1));
+    let _ = string_println(e.0 + e.1);
+    let _ = string_println(f.0 + int32_to_string(f.1));
+    let g: string = c.pick("l", "r", false);
+    let h: int32 = c.pick(1, 2, true);
+    let i: bool = Cell::pick(d, true, false, false);
+    let _ = string_println(g + int32_to_string(h) + bool_to_string(i));
+    ()
+}
+"#, "7s\n7true\nwx\nw5\nr1false\n"),
     // a trait implemented for a trait-object type, reached directly and through a bound instantiated at `dyn Shape`
     ("trait-for-dyn-type", r#"trait Shape { fn describe(Self) -> string; }
 trait Report { fn describe(Self) -> string; fn tag(Self) -> int32; }
